@@ -7,7 +7,9 @@ use crate::engine::run::*;
 use crate::engine::stats::*;
 use crate::engine::stepcase::*;
 use crate::gen::*;
-use crate::refmodel::exec::{cycle_cost, BusCfg, Kind, Outcome};
+use crate::engine::emu::*;
+use crate::engine::program::*;
+use crate::refmodel::exec::{cycle_cost, total_cost, BusCfg, Kind, Outcome};
 use crate::refmodel::insn::*;
 use serde_json::{json, Map};
 
@@ -123,8 +125,142 @@ fn classify(case: &StepCase, j: &Judged, t: &Tag, stats: &mut Stats) {
     }
 }
 
+// ------------------------------------------------------------------ programs: charges along an execution
+
+/// A straight-line program (plus one leaf call) whose instructions touch on-chip RAM, DRAM, the vector area and
+/// now and then an I/O register, and that reprograms the bus controller on the way - with stores, as a guest does.
+/// Every instruction's charge must equal the cycle table x the cost rule under the setting in force *when it
+/// runs*: a charge that depends on what was costed before, or that follows a setting change late, shows here.
+fn build_charge_prog(e: &mut Ent) -> (Prog, u32) {
+    let code = if e.chance(1, 2) { 0xffc000 + 2 * e.below(0x200) } else { 0x420000 + 2 * e.below(0x8000) };
+    let leaf = if e.chance(1, 2) { 0xffd800 + 2 * e.below(0x100) } else { 0x470000 + 2 * e.below(0x1000) };
+    let stop = code + 0x700;
+    let mut er = e.regfile();
+    er[4] = 0xffe000 + 4 * e.below(0x100);
+    er[5] = 0x500000 + 4 * e.below(0x4000);
+    er[6] = 0x40 + 4 * e.below(0x20);
+    er[7] = if e.chance(1, 2) { 0xffef00 } else { 0x5ff000 } | e.upper_byte();
+    let mut c: Vec<u8> = vec![];
+    let n = 6 + e.below(34);
+    let dreg = |e: &mut Ent, sz: Sz| -> u8 {
+        match sz {
+            Sz::L => e.below(4) as u8,
+            _ => e.below(4) as u8 + if e.chance(1, 2) { 8 } else { 0 },
+        }
+    };
+    let mut called = false;
+    for _ in 0..n {
+        let p = 4 + e.below(3) as u8;
+        let sz = e.pick(&[Sz::B, Sz::W, Sz::L]);
+        let insn = match e.below(14) {
+            0 => Insn::Load { sz, ea: Ea::Ind(p), d: dreg(e, sz) },
+            1 => Insn::Store { sz, s: dreg(e, sz), ea: Ea::Ind(p) },
+            2 => Insn::Load { sz, ea: Ea::D16(p, 2 * e.below(16) as u16), d: dreg(e, sz) },
+            3 => Insn::Store { sz, s: dreg(e, sz), ea: Ea::D24(p, 2 * e.below(16)) },
+            4 => {
+                let op = e.pick(&[AluOp::Add, AluOp::Sub, AluOp::Cmp, AluOp::And, AluOp::Or, AluOp::Xor]);
+                // (there is no SUB.B #imm)
+                let imm = e.chance(1, 2) && !(op == AluOp::Sub && sz == Sz::B);
+                Insn::Alu { op, sz, src: if imm { Src::Imm(e.val(sz)) } else { Src::Reg(dreg(e, sz)) }, d: dreg(e, sz) }
+            }
+            5 => Insn::Bit { op: e.pick(&[BitOp::Bset, BitOp::Bclr, BitOp::Bnot, BitOp::Btst, BitOp::Bld]), sel: BitSel::Imm(e.below(8) as u8), tgt: BitTgt::Ind(p) },
+            6 => {
+                // push + pop
+                c.extend(encode(&Insn::Store { sz: Sz::L, s: e.below(4) as u8, ea: Ea::Pre(7) }));
+                Insn::Load { sz: Sz::L, ea: Ea::Post(7), d: e.below(4) as u8 }
+            }
+            7 | 8 => {
+                // reprogram one bus-controller register
+                let reg = e.pick(&[ABWCR, ASTCR, WCRH, WCRL, DRCRA]);
+                let v = if reg == DRCRA { ((e.below(2) as u8) << 5) | (e.u8() & 0x1f) } else if e.chance(1, 2) { e.u8() } else { 1u8 << e.below(8) };
+                c.extend(encode(&Insn::MovImm { sz: Sz::B, imm: v as u32, d: 11 }));
+                Insn::Store { sz: Sz::B, s: 11, ea: Ea::A24(reg) }
+            }
+            9 => Insn::Load { sz: Sz::B, ea: Ea::A8(e.pick(&[0xb0u8, 0xb4, 0xc8, 0x60, 0x24])), d: 10 }, // an I/O register lookup (its own charge is not constrained)
+            10 if !called => {
+                called = true;
+                Insn::Jsr(JTarget::Abs(leaf))
+            }
+            11 => Insn::Load { sz, ea: Ea::A24(e.pick(&[0xffe800u32, 0x480000, 0x000080]) + 4 * e.below(8)), d: dreg(e, sz) },
+            12 => Insn::Mulxu { sz: Sz::B, s: dreg(e, Sz::B), d: e.below(4) as u8 },
+            _ => Insn::MovRR { sz, s: dreg(e, sz), d: dreg(e, sz) },
+        };
+        c.extend(encode(&insn));
+    }
+    c.extend(encode(&Insn::Jmp(JTarget::Abs(stop))));
+    let mut lf: Vec<u8> = vec![];
+    for _ in 0..1 + e.below(3) {
+        lf.extend(encode(&Insn::Load { sz: Sz::W, ea: Ea::Ind(4 + e.below(3) as u8), d: e.below(4) as u8 }));
+    }
+    lf.extend(encode(&Insn::Rts));
+    let bus = if e.chance(1, 2) { distinct_cfg(e) } else { e.bus_cfg() };
+    (Prog { image: vec![(code, c), (leaf, lf)], er, ccr: e.u8(), pc: code, bus }, stop)
+}
+
+/// Ok((instructions compared, setting changes, instructions after an I/O lookup)) or the violation
+fn run_charge_prog(emu: &mut Emu, prog: &Prog, stop: u32) -> Result<(usize, usize, usize), String> {
+    let opts = LsOpts { quirks: &[], max_steps: 200, full_dram: false, compare_memory: true };
+    let mut cfg_before: Option<BusCfg> = None;
+    let mut violation: Option<String> = None;
+    let (mut compared, mut changes, mut after_io) = (0usize, 0usize, 0usize);
+    let mut io_seen = false;
+    let out = lockstep(emu, prog, &opts, &mut |v: &View| {
+        let g = |a: u32| (v.peek)(a).unwrap_or(0);
+        let cfg_now = BusCfg { abwcr: g(ABWCR), astcr: g(ASTCR), wcrh: g(WCRH), wcrl: g(WCRL), drcra: g(DRCRA) };
+        if let (Some(step), Some(cfg)) = (v.last, cfg_before) {
+            let wrote_cfg = step.accesses.iter().any(|a| a.write && (0..a.size).any(|i| is_bus_reg(a.addr + i)));
+            if wrote_cfg {
+                changes += 1;
+            } else if matches!(step.outcome, Outcome::Ok) {
+                if let Some(exp) = total_cost(&step.cycles, &cfg) {
+                    compared += 1;
+                    if io_seen {
+                        after_io += 1;
+                    }
+                    if exp != v.last_states {
+                        violation = Some(format!("instruction {} ({:?}) charged {} states; cycle table x cost rule under {:?} = {} ({:?})", v.idx, step.decoded.class, v.last_states, cfg, exp, step.cycles));
+                        return Ctl::Stop;
+                    }
+                } else {
+                    io_seen = true; // a cycle whose cost the statement does not define (I/O register)
+                }
+            }
+        }
+        cfg_before = Some(cfg_now);
+        if v.pc == stop {
+            return Ctl::Stop;
+        }
+        Ctl::Step
+    });
+    if let Some(m) = violation {
+        return Err(m);
+    }
+    match out.end {
+        End::Mismatch(m) => Err(format!("state mismatch in a charge program: {}", m)),
+        _ => Ok((compared, changes, after_io)),
+    }
+}
+
 pub fn run(ctx: &Ctx) -> i32 {
     if let Some(v) = &ctx.replay {
+        let case = v.get("case").unwrap_or(v);
+        if case.get("kind").and_then(|k| k.as_str()) == Some("charge-program") {
+            let (Some(prog), Some(stop)) = (case.get("prog").and_then(Prog::from_json), case.get("stop").and_then(|s| s.as_u64())) else { return 2 };
+            let mut emu = Emu::new(&ctx.base);
+            return match run_charge_prog(&mut emu, &prog, stop as u32) {
+                Ok(_) => {
+                    println!("replay {}: passes", P);
+                    0
+                }
+                Err(m) => {
+                    let f = Failure { signature: "charge program".into(), detail: m, case: case.clone() };
+                    let p = write_replay(P, &f);
+                    println!("VIOLATION property={} replay={}", P, p.display());
+                    println!("  detail: {}", f.detail);
+                    1
+                }
+            };
+        }
         return replay_step(ctx, P, v);
     }
     let tier = ctx.tier;
@@ -184,7 +320,50 @@ pub fn run(ctx: &Ctx) -> i32 {
         all_quirks: true,
     }
     .run();
-    let rule = "cases = every implemented instruction form (all MOV forms, arithmetic, logic/shift, bit instructions, branches/jumps/calls/returns, TRAPA #1-3, RTE, STC) with code in on-chip RAM or DRAM, operands / stack / vectors in on-chip RAM, DRAM and the vector area (incl. first and last addresses), under bus-controller settings constructed so that on-chip RAM, area 0 and area 2 cost pairwise different amounts for byte and word cycles (plus the run-loop default and random settings); operand values vary freely (value independence). Oracle = sum over the reference's advanced-mode cycle table (DESIGN Appendix A) of count x cost(kind, address actually accessed). Non-trivial = code area differs from the operand/stack/vector area, or the setting is not all-zero; distinct by (form, code area, cycle areas, setting).";
+    let mut stats = stats;
+    // phase 2: charges along generated programs
+    let np: u32 = tier.pick(60_000, 2_000_000);
+    let pstats = par_shards(ctx, 32, |shard| {
+        let w = Worker::new(ctx);
+        let ent = entropy_n(400);
+        let _ = run_prop(mix(ctx.seed, 0x2002_0000 + shard as u64), np / 32, &ent, |raw, shrinking| {
+            let (prog, stop) = build_charge_prog(&mut Ent::new(raw));
+            let r = run_charge_prog(&mut w.emu.borrow_mut(), &prog, stop);
+            let mut st = w.stats.borrow_mut();
+            match r {
+                Ok((compared, changes, after_io)) => {
+                    if !shrinking {
+                        st.evaluations += 1;
+                        st.class("program: charges compared along an execution");
+                        st.class_n("program: instructions whose charge was compared", compared as u64);
+                        st.class_n("program: bus-controller registers rewritten by the guest", changes as u64);
+                        st.class_n("program: instructions compared after an I/O-register lookup", after_io as u64);
+                        if changes > 0 || after_io > 0 {
+                            st.nontrivial(key_hash(&format!("{:?}", prog.image)), || json!({"program": true, "instructions": compared, "setting_changes": changes, "after_io": after_io, "bus": format!("{:?}", prog.bus)}));
+                        }
+                    }
+                    Ok(())
+                }
+                Err(m) => {
+                    let sig = format!("charge program | {}", fail_field(&m.replace(|c: char| c.is_ascii_digit(), "")));
+                    let f = Failure { signature: sig.clone(), detail: m, case: json!({"kind": "charge-program", "prog": prog.to_json(), "stop": stop}) };
+                    if ctx.survey {
+                        if !shrinking {
+                            st.survey_fail(f);
+                        }
+                        Ok(())
+                    } else {
+                        st.failures.clear();
+                        st.fail(f);
+                        Err(sig)
+                    }
+                }
+            }
+        });
+        w.stats.into_inner()
+    });
+    stats.merge(pstats);
+    let rule = "cases = every implemented instruction form (all MOV forms, arithmetic, logic/shift, bit instructions, branches/jumps/calls/returns, TRAPA #1-3, RTE, STC) with code in on-chip RAM or DRAM, operands / stack / vectors in on-chip RAM, DRAM and the vector area (incl. first and last addresses), under bus-controller settings constructed so that on-chip RAM, area 0 and area 2 cost pairwise different amounts for byte and word cycles (plus the run-loop default and random settings); operand values vary freely (value independence). Oracle = sum over the reference's advanced-mode cycle table (DESIGN Appendix A) of count x cost(kind, address actually accessed). Non-trivial = code area differs from the operand/stack/vector area, or the setting is not all-zero; distinct by (form, code area, cycle areas, setting). Phase 2: generated programs of 6-40 instructions (loads/stores/bit operations through pointers into on-chip RAM, DRAM and the vector area, push/pop, one leaf call, I/O-register lookups, and stores that reprogram single bus-controller registers on the way) run in lockstep with the reference; every instruction is charged cycle table x cost rule under the setting in force when it runs (history-dependent or late-following charges).";
     let mut extra = Map::new();
     extra.insert("excluded".into(), json!(["operands in the on-chip I/O register ranges (documented TODO)", "TRAPA #0 (serviced by the emulator, not an architectural instruction)", "interrupt acceptance (not charged by the run loop)"]));
     finish(ctx, P, stats, rule, vec!["cycle table transcribed from the H8/300H programming manual's advanced-mode table (DESIGN Appendix A); cost rule = property C19's statement, re-implemented independently".into()], extra)
